@@ -82,8 +82,14 @@ def run_case(ctx, nix, np, path, rng, rep):
                 df = b.create_data_frame("df", "t", col_names=[n for n, _ in cols], col_dtypes=[spec[t][0] for _, t in cols],
                                          data=rows or None)
             elif variant == "names_data":
-                df = b.create_data_frame("df", "t", col_names=[n for n, _ in cols], data=rows)
-                cols = [(n, "int" if t == "small" else t) for n, t in cols]
+                if rng.random() < 0.5 and any(t == "small" for _, t in cols):
+                    # cells that carry their own element type (NumPy scalars): the column takes the type of the first row's cell
+                    flags.add("numpy_cells")
+                    rows_in = [tuple(np.int8(v) if t == "small" else v for v, (_, t) in zip(r, cols)) for r in rows]
+                    df = b.create_data_frame("df", "t", col_names=[n for n, _ in cols], data=rows_in)
+                else:
+                    df = b.create_data_frame("df", "t", col_names=[n for n, _ in cols], data=rows)
+                    cols = [(n, "int" if t == "small" else t) for n, t in cols]
             else:
                 dt = np.dtype([(n, "U100" if t == "text" else npdt[t]) for n, t in cols])
                 arr = np.array(rows, dtype=dt)
@@ -246,7 +252,10 @@ def run_case(ctx, nix, np, path, rng, rep):
                         continue
                     try:
                         if k == "rows_len":
-                            df.append_rows([mkrow() + (1,)])
+                            # the faulty row is the only one, or comes after well-formed rows of the same batch
+                            good = [mkrow() for _ in range(rng.choice([0, 0, 1, 3]))]
+                            faulty = mkrow() + (1,) if (rng.random() < 0.5 or len(cols) < 2) else mkrow()[:-1]
+                            df.append_rows(good + [faulty])
                         elif k == "col_len":
                             df.write_column([spec[cols[0][1]][1]() for _ in range(len(rows) + 1)], name=cols[0][0])
                         elif k == "unknown_col":
